@@ -275,7 +275,12 @@ pub fn run_shard(prop: &dyn Prop, tier: Tier, seed: u64, shard: usize, _nshards:
         let state = RefCell::new((std::mem::take(&mut rep), false, None::<Fail>));
         let result = runner.run(&strategy, |case| {
             let failed_before = state.borrow().1;
-            match prop.run_case(&case, &ctx) {
+            let t0 = Instant::now();
+            let r = prop.run_case(&case, &ctx);
+            if t0.elapsed().as_secs_f64() > 2.0 && std::env::var_os("RLV_SLOW").is_some() {
+                eprintln!("SLOW {:.1}s: {}", t0.elapsed().as_secs_f64(), serde_json::to_string(&case).unwrap());
+            }
+            match r {
                 Ok(info) => {
                     if !failed_before {
                         state.borrow_mut().0.absorb(&case, info);
